@@ -622,6 +622,33 @@ def c04_reset(ctx):
     ctx.check(bool(it), it[0] if it else call, "_iterating is initialised by _start on every call")
 
 
+    # (c) any other attribute of Parallel that the callback class or a dispatch/retrieval method writes during a call
+    # (flags, counters, remembered jobs) is per-call state too: some prologue/epilogue function must (re)initialise it,
+    # otherwise what one call leaves there is seen by the next call on the same object.
+    workers = {"_dispatch", "dispatch_one_batch", "dispatch_next", "_register_new_job", "_retrieve", "_raise_error_fast", "_abort", "_wait_retrieval", "print_progress", "_print"}
+    prologue = {"_reset_run_tracking", "__call__", "_start", "_get_outputs", "_get_sequential_output", "_terminate_and_reset"}
+    written = {}
+    for st_ in cls.body:
+        if isinstance(st_, ast.FunctionDef) and st_.name in workers:
+            for n in ast.walk(st_):
+                if isinstance(n, ast.Attribute) and isinstance(n.ctx, ast.Store) and isinstance(n.value, ast.Name) and n.value.id == "self":
+                    written.setdefault(n.attr, n)
+    for st_ in cb.body:
+        if isinstance(st_, ast.FunctionDef) and st_.name != "__init__":
+            for n in ast.walk(st_):
+                if isinstance(n, ast.Attribute) and isinstance(n.ctx, ast.Store) and dotted(n.value) in ("self.parallel", "parallel"):
+                    written.setdefault(n.attr, n)
+    reinit = set()
+    for st_ in cls.body:
+        if isinstance(st_, ast.FunctionDef) and st_.name in prologue:
+            for n in ast.walk(st_):
+                if isinstance(n, ast.Assign):
+                    reinit.update(t[5:] for t in stores_to(n) if t.startswith("self.") and t.count(".") == 1)
+    for attr in sorted(written):
+        ctx.check(attr in reinit, written[attr], "per-call attribute %s is (re)initialised by a per-call prologue/epilogue" % attr,
+                  "Parallel.%s is written while a call runs but no per-call prologue/epilogue (%s) re-initialises it: what a failed or timed-out call leaves there is seen by the next call on the same object"
+                  % (attr, ", ".join(sorted(prologue))), key=PAR + "::Parallel::per-call attribute " + attr)
+
 def c04_callid(ctx):
     call = F(ctx, "Parallel.__call__")
     g = cfg_of(call)
